@@ -53,8 +53,10 @@ def load_harnesses():
 _scratch_repo = None
 
 
-def scratch_repo(repo=REPO):
-    """Copy of the working tree with the harness includes appended.  Only additions; the list is returned."""
+def scratch_repo(repo=REPO, only_files=None):
+    """Copy of the working tree with the harness includes appended.  Only additions; the list is returned.
+    only_files: inject just these harness files (plus common.rs), so that a change which stops an unrelated harness file
+    from compiling cannot make this property undecided."""
     global _scratch_repo
     if _scratch_repo is not None:
         return _scratch_repo
@@ -66,6 +68,8 @@ def scratch_repo(repo=REPO):
     additions = []
     for fn in sorted(os.listdir(KANI_DIR)):
         if not fn.endswith(".rs"):
+            continue
+        if only_files is not None and fn != "common.rs" and fn not in only_files:
             continue
         path = os.path.join(KANI_DIR, fn)
         module = None
@@ -94,6 +98,26 @@ def scratch_repo(repo=REPO):
     return _scratch_repo
 
 
+def ensure_injected(fn):
+    """Inject one more harness file into the existing scratch copy (used by the replay machinery for paired harnesses)."""
+    dst, additions = scratch_repo()
+    if any(fn in " ".join(a["added"]) for a in additions):
+        return
+    path = os.path.join(KANI_DIR, fn)
+    module = None
+    for l in open(path):
+        m = re.match(r"^\s*//\s*@module\s+(\S+)", l)
+        if m:
+            module = m.group(1)
+            break
+    if module is None or module.endswith("lib.rs"):
+        return
+    line = '\n#[cfg(kani)]\ninclude!("%s");\n' % path
+    with open(os.path.join(dst, module), "a") as f:
+        f.write(line)
+    additions.append({"file": module, "added": [line.strip()]})
+
+
 GROUP_NOTE = {"nodebug": "debug assertions compiled out (CARGO_PROFILE_DEV_DEBUG_ASSERTIONS=false): the release half of C17", "leak": "CBMC --memory-leak-check"}
 GROUP_ENV = {"nodebug": {"CARGO_PROFILE_DEV_DEBUG_ASSERTIONS": "false"}}
 GROUP_FLAGS = {
@@ -107,7 +131,7 @@ def run_kani(harnesses, jobs=16, timeout_s=3600, playback=False, harness_timeout
     """Run the given harnesses (one cargo kani invocation per flag group).  Returns {name: result}."""
     if not harnesses:
         return {}, []
-    dst, additions = scratch_repo()
+    dst, additions = scratch_repo(only_files={h.file for h in harnesses})
     results = {}
     cmds = []
     groups = {}
